@@ -157,7 +157,7 @@ func Ed25519Pub(seed []byte) []byte { return verif.UF("ED-PUB", 32, seed) }
 func Ed25519GenerateKey(rand io.Reader) ([]byte, []byte, error) {
 	seed := make([]byte, 32)
 	if rand == nil {
-		copy(seed, verif.Fresh("ed25519-seed", 32))
+		copy(seed, FreshDistinct("ed25519-seed", 32))
 	} else if _, err := io.ReadFull(rand, seed); err != nil {
 		return nil, nil, err
 	}
@@ -250,9 +250,26 @@ func ScalarMult(dst, scalar, point *[32]byte) {
 // ---- randomness ----
 
 var randCount int
+var freshLog [][]byte
+
+// FreshDistinct returns n fresh random bytes; values of 16 bytes or more are assumed
+// pairwise distinct from every earlier one of the same length (A6: independently drawn
+// random keys, seeds and salts do not collide).
+func FreshDistinct(name string, n int) []byte {
+	v := verif.Fresh(name, n)
+	if n >= 16 {
+		for _, p := range freshLog {
+			if len(p) == n {
+				verif.Assume(!verif.Eq(p, v))
+			}
+		}
+		freshLog = append(freshLog, v)
+	}
+	return v
+}
 
 func RandRead(b []byte) (int, error) {
 	randCount++
-	copy(b, verif.Fresh("rand", len(b)))
+	copy(b, FreshDistinct("rand", len(b)))
 	return len(b), nil
 }
